@@ -90,7 +90,7 @@ func (v *Verifier) runLemmas(prop, dir string, quickT, longT int) []oblResult {
 func (v *Verifier) lemmaUnit(lm *Lemma) (unit *Unit) {
 	v.resetTables()
 	q := newQuery(v.u)
-	e := &Enc{v: v, q: q, u: v.u, oblCount: map[string]int{}}
+	e := &Enc{v: v, q: q, u: v.u, oblCount: map[string]int{}, noSide: true}
 	unit = &Unit{Q: q, Enc: e}
 	defer func() {
 		if r := recover(); r != nil {
